@@ -18,6 +18,7 @@ type c16Op struct {
 	Kind string `json:"kind"` // wait | failure | success
 	Host int    `json:"host"`
 	Code int    `json:"code,omitempty"`
+	N    int    `json:"n,omitempty"` // > 1: the operation is repeated this many times (a host that stays hot for a long crawl)
 }
 
 type c16Case struct {
@@ -31,6 +32,7 @@ func genC16Case(t *rapid.T) c16Case {
 	c := c16Case{MaxBuckets: rapid.IntRange(1, 8).Draw(t, "maxbuckets"), Parallel: []int{1, 1, 2, 4, 8}[rapid.IntRange(0, 4).Draw(t, "parallel")]}
 	c.Hosts = rapid.IntRange(1, 6*c.MaxBuckets+3).Draw(t, "hosts")
 	n := rapid.IntRange(1, 120).Draw(t, "nops")
+	hotOps := 0
 	for i := 0; i < n; i++ {
 		op := c16Op{Kind: []string{"wait", "wait", "wait", "failure", "success"}[rapid.IntRange(0, 4).Draw(t, "kind")]}
 		// skewed host choice: a few hot hosts and a long tail, so that usage counts differ
@@ -43,6 +45,11 @@ func genC16Case(t *rapid.T) c16Case {
 			// rate cuts (5xx) and back-off penalties (429 ...): a penalised host's bucket is still just one table entry, and
 			// stays evictable (the waits it causes are virtual time)
 			op.Code = []int{500, 503, 429, 429, 403, 408}[rapid.IntRange(0, 5).Draw(t, "code")]
+		}
+		if op.Kind != "failure" && hotOps < 4 && rapid.IntRange(0, 11).Draw(t, "longhot") == 0 {
+			// thousands of uses of one host: whatever bookkeeping ranks the hosts must not wear out
+			op.N = rapid.IntRange(4000, 9000).Draw(t, "repeat")
+			hotOps++
 		}
 		c.Ops = append(c.Ops, op)
 	}
@@ -78,13 +85,15 @@ func c16RunTable(c c16Case) string {
 	defer bm.Close()
 	do := func(op c16Op) string {
 		h := fmt.Sprintf("127.0.0.%d:80", op.Host+2)
-		switch op.Kind {
-		case "wait":
-			bm.Wait(h)
-		case "failure":
-			bm.AdjustOnFailure(h, op.Code)
-		default:
-			bm.OnSuccess(h)
+		for k := 0; k < max(op.N, 1); k++ {
+			switch op.Kind {
+			case "wait":
+				bm.Wait(h)
+			case "failure":
+				bm.AdjustOnFailure(h, op.Code)
+			default:
+				bm.OnSuccess(h)
+			}
 		}
 		bm.mu.Lock()
 		n := len(bm.buckets)
